@@ -121,7 +121,7 @@ def create_backup_archive(
             "timestamp": timestamp,
             "namespace": namespace,
             "deployment_count": len(deployments),
-            "encrypted": encryption_password is not None,
+            "encrypted": bool(encryption_password),
         }
         _add_bytes_to_tar(tar, "manifest.json", json.dumps(manifest, indent=2).encode())
 
